@@ -157,7 +157,7 @@ class SIS(ss.Infection):
         """ Initialize results """
         super().init_results()
         self.define_results(
-            ss.Result('rel_sus', dtype=float, label='Relative susceptibility')
+            ss.Result('rel_sus', dtype=float, scale=False, label='Relative susceptibility')
         )
         return
 
